@@ -149,7 +149,7 @@ def data(ctx=None):
             # a codeword of exactly the advertised weight
             if true_d == advD:
                 wit = wmsg
-        cyc = c.family in CYCLIC_FAMILIES
+        cyc = c.family in CYCLIC_FAMILIES and isinstance(c.params.get("info", "left"), str)   # closure / divisibility: contiguous layouts only
         gpoly, rot, rev = 0, 0, False
         if cyc:
             gpoly = int(c.enc.generator_poly.value)
